@@ -206,13 +206,22 @@ def regular_predicates(ctx, case, g, vals, res):
     tol = Fr(5e-10) * Fr(delta) + 4 * Fr(ulp(maxabs))
     D = Fr(delta)
 
+    # The open finding is: on a coarse grid a value within float resolution of a grid point is assigned to
+    # the cell below that point.  Exactly two clauses can fail through it -- "a grid point is a fixed point
+    # of lower / nearest, upper gives the next one" and "value < upper" -- and only for values within a few
+    # ulps of a grid point.  Every other clause (member, strictly increasing, upper = lower + spacing,
+    # lower <= value, nearest <= half a spacing) is reported under its own signature on coarse grids too.
+    near_tol = 8 * ulp(maxabs)
+
     def bad(what, tag, v, detail, obs):
         c = dict(case)
         c.update({'value': hx(v), 'position': tag})
-        if coarse:
+        near_point = min(abs(v - x) for x in grid) <= near_tol
+        if coarse and near_point and what in ('grid-point-fixed', 'value<upper'):
             ctx.violation(SITE_PG, KIND_COARSE, detail, case=c, impl=obs, predicate=what)
         else:
-            ctx.violation(SITE_PG, 'fine-grid:' + what, detail, case=c, impl=obs, predicate=what)
+            ctx.violation(SITE_PG, ('coarse-grid:' if coarse else 'fine-grid:') + what, detail, case=c, impl=obs,
+                          predicate=what)
 
     # strictly increasing stored grid with distinct members
     if any(not (a < b) for a, b in zip(grid, grid[1:])):
@@ -521,7 +530,16 @@ def manifold_exact(c, ident, x, s, e):
     return k0 + k1 * X + k2 * X * X, k1 + 2 * k2 * X
 
 
+def evdata(ident, n_per):
+    """the event data handed to the interpolation method: row 0 = a per-event quantity (the event number),
+    row 1 = a quantity of the trial data as a whole (its state id).  It is a function of the trial data
+    state, which is the contract under which the caches are keyed by the state id."""
+    n = max(n_per)
+    return np.array([np.arange(n, dtype=np.float64), np.full((n,), float(ident))])
+
+
 def make_func(fam, c, calls_log):
+    """manifold function that takes what it needs about the events from its `eventdata` argument"""
     def func(tdm, eventdata, gridparams_recarray, n_values):
         gp = gridparams_recarray
         if len(gp) == 1:
@@ -529,7 +547,8 @@ def make_func(fam, c, calls_log):
         (src, evt) = tdm.src_evt_idxs
         x = gp['p'][src]
         calls_log.append(1)
-        return manifold_py(fam, c, tdm.trial_data_state_id, x, src, evt)
+        assert n_values == len(src)
+        return manifold_py(fam, c, eventdata[1, 0], x, src, eventdata[0][evt])
     return func
 
 
@@ -563,8 +582,12 @@ def interp_calls(rng, case, grid, delta):
     """call history: (state id, xs) — repeated cells (cache hits), new cells, new state ids,
     shared (length 1) and per-source values, values on grid points and half-way points"""
     nsrc = len(case['n_per'])
-    inner = [float(x) for x in grid[1:-1]]
+    # all cells of the grid, the first and the last one included (there Parabola1D asks the manifold for
+    # origin - spacing and Linear1D, at the last grid point, for last + spacing)
+    inner = [float(x) for x in grid]
     lo, hi = inner[0], inner[-1]
+    edge = [inner[0], inner[0] + 0.25 * delta, inner[0] + 0.5 * delta, inner[0] + 0.75 * delta,
+            inner[-2] + 0.25 * delta, inner[-2] + 0.5 * delta, inner[-2] + 0.75 * delta, inner[-1]]
     calls = []
     ident = rng.randint(1, 5)
     base = None
@@ -591,7 +614,9 @@ def interp_calls(rng, case, grid, delta):
             for _ in range(m):
                 p = rng.random()
                 g = rng.choice(inner[:-1])
-                if p < 0.25:
+                if rng.random() < 0.3:
+                    xs.append(rng.choice(edge))
+                elif p < 0.25:
                     xs.append(g)
                 elif p < 0.4:
                     xs.append(g + 0.5 * delta)
@@ -631,11 +656,17 @@ def run_interp(ctx, exe, cases):
             pr = np.array([(x,) for x in xs], dtype=[('p', np.float64)])
             nlog = len(log)
             try:
-                (vals, grads) = meth(tdm=tdm, eventdata=None, params_recarray=pr)
+                (vals, grads) = meth(tdm=tdm, eventdata=evdata(ident, case['n_per']), params_recarray=pr)
+                assert np.asarray(grads).shape == (1, len(vals))
+                (vals_arr, grads_arr) = (vals, grads)
                 vals = [float(v) for v in vals]
                 gr = [float(v) for v in np.asarray(grads)[0]]
-                assert np.asarray(grads).shape == (1, len(vals))
                 impl.append(['Ok', vals, gr])
+                # the returned arrays are the caller's: overwrite them in place; every later call (cache hits
+                # included) is compared with a fresh object and with the model, so an array that is still
+                # referenced by the object's cache shows up there
+                vals_arr += 7.0
+                grads_arr *= 100.0
             except Exception as ex:
                 impl.append(['Err', exc_name(ex)])
                 continue
@@ -646,7 +677,7 @@ def run_interp(ctx, exe, cases):
             fresh = Cls(make_func(case['fam'], case['c'], []), pg)
             xs_full = xs if len(xs) > 1 else xs * len(case['n_per'])
             prf = np.array([(x,) for x in xs_full], dtype=[('p', np.float64)])
-            (v2, g2) = fresh(tdm=StubTDM(case['n_per'], ident), eventdata=None, params_recarray=prf)
+            (v2, g2) = fresh(tdm=StubTDM(case['n_per'], ident), eventdata=evdata(ident, case['n_per']), params_recarray=prf)
             scale = max(1.0, max(abs(v) for v in vals))
             # same floating-point operations on the same inputs: equal up to a few ulps at most
             if (max(abs(a - b) for a, b in zip(vals, v2)) > 1e-14 * scale
@@ -685,9 +716,9 @@ def run_interp(ctx, exe, cases):
                 inside = all(abs(p - Fr(1, 2)) > Fr(1, 100) for p in cellpos)
             if inside:
                 f1 = Cls(make_func(case['fam'], case['c'], []), pg)
-                vp = f1(tdm=StubTDM(case['n_per'], ident), eventdata=None,
+                vp = f1(tdm=StubTDM(case['n_per'], ident), eventdata=evdata(ident, case['n_per']),
                         params_recarray=np.array([(x + h,) for x in xs_full], dtype=[('p', np.float64)]))[0]
-                vm = f1(tdm=StubTDM(case['n_per'], ident), eventdata=None,
+                vm = f1(tdm=StubTDM(case['n_per'], ident), eventdata=evdata(ident, case['n_per']),
                         params_recarray=np.array([(x - h,) for x in xs_full], dtype=[('p', np.float64)]))[0]
                 for j in range(len(vals)):
                     fd = (float(vp[j]) - float(vm[j])) / (2 * h)
@@ -816,9 +847,14 @@ def run_multi(ctx, exe, cases):
             pr = np.array([(x,) for x in xs], dtype=[('p', np.float64)])
             snap = pr.tobytes()
             try:
-                (vals, grads) = ob['meth'](tdm=StubTDM(n_per, ident), eventdata=None, params_recarray=pr)
+                (vals, grads) = ob['meth'](tdm=StubTDM(n_per, ident), eventdata=evdata(ident, n_per), params_recarray=pr)
                 res = ['Ok', [float(v) for v in vals], [float(v) for v in np.asarray(grads)[0]]]
                 kept.append((np.array(vals, copy=True), np.array(grads, copy=True), vals, grads))
+                if len(kept) % 2 == 0:
+                    # returned arrays are owned by the caller: overwrite every second result in place
+                    vals += 7.0
+                    grads *= 100.0
+                    kept[-1] = (np.array(vals, copy=True), np.array(grads, copy=True), vals, grads)
             except Exception as ex:
                 res = ['Err', exc_name(ex)]
             if pr.tobytes() != snap:
@@ -837,7 +873,7 @@ def run_multi(ctx, exe, cases):
             for (ident, xs, res) in hist[j]:
                 twin = ob['Cls'](make_func(o['fam'], o['c'], []), ob['pg'])
                 pr = np.array([(x,) for x in xs], dtype=[('p', np.float64)])
-                (v2, g2) = twin(tdm=StubTDM(n_per, ident), eventdata=None, params_recarray=pr)
+                (v2, g2) = twin(tdm=StubTDM(n_per, ident), eventdata=evdata(ident, n_per), params_recarray=pr)
                 want = ['Ok', [float(v) for v in v2], [float(v) for v in np.asarray(g2)[0]]]
                 sc = max([1.0] + [abs(v) for v in want[1]])
                 d = float(ob['pg'].delta)
@@ -1047,6 +1083,115 @@ def run_pdfset_lookup(ctx, exe, cases):
             ctx.disagree('PDFSet.get_pdf/rounded-value', case, str(impl)[:300], str(model)[:300])
 
 
+# ------------------------------------------------------------------ deterministic probes (every run, every seed)
+SITE_KEY = 'GridManifoldInterpolationMethod._is_cached'
+KIND_KEY = 'stale-after-func-or-eventdata-change-within-one-state'
+
+
+def run_contract_probes(ctx):
+    """(1) arrays returned by a call are owned by the caller (fix 1e87dec); (2) the cache key omits the
+    manifold function and the event data (open finding: hit on every run); (3) interpolation in the first /
+    last cell of a grid through a REAL PDFSet (after add_extra_lower_and_upper_bin every requested grid value
+    must be a registered member)."""
+    from skyllh.core.parameters import ParameterGrid
+    from skyllh.core.interpolate import (Linear1DGridManifoldInterpolationMethod as Lin,
+                                         Parabola1DGridManifoldInterpolationMethod as Par)
+    n_per = [2, 1]
+    pg = ParameterGrid('p', np.arange(1.0, 3.05, 0.1), delta=0.1)
+    c = [1.0, 2.0, 0.5, 0.25]
+    pr = np.array([(2.13,), (1.46,)], dtype=[('p', np.float64)])
+    for Cls in (Lin, Par):
+        # (1) ownership
+        ctx.count('probe:ownership')
+        m = Cls(make_func(0, c, []), pg)
+        (v1, g1) = m(tdm=StubTDM(n_per, 1), eventdata=evdata(1, n_per), params_recarray=pr)
+        keep = (v1.copy(), g1.copy())
+        g1 *= 100.0
+        v1 += 7.0
+        (v2, g2) = m(tdm=StubTDM(n_per, 1), eventdata=evdata(1, n_per), params_recarray=pr)
+        if not (np.array_equal(v2, keep[0]) and np.array_equal(g2, keep[1])):
+            ctx.violation(Cls.__name__ + '.__call__', 'result-changed-by-writing-into-earlier-result',
+                          'after the caller modified the arrays returned by a call in place, the same call '
+                          'returns different numbers: the object handed out its cache storage',
+                          case={'probe': 'ownership', 'kind': Cls.__name__}, impl=[v2.tolist(), g2.tolist()],
+                          model=[keep[0].tolist(), keep[1].tolist()])
+        for (a, b) in ((v1, v2), (g1, g2), (v1, g2), (g1, v2)):
+            if np.shares_memory(a, b):
+                ctx.violation(Cls.__name__ + '.__call__', 'results-of-two-calls-share-memory',
+                              'arrays returned by two different calls share memory',
+                              case={'probe': 'ownership', 'kind': Cls.__name__})
+        # (2) cache key: the same trial data state and cell, but other event data / another function
+        ctx.count('probe:cache-key')
+        m = Cls(make_func(0, c, []), pg)
+        (va, _) = m(tdm=StubTDM(n_per, 1), eventdata=evdata(1, n_per), params_recarray=pr)
+        (vb, _) = m(tdm=StubTDM(n_per, 1), eventdata=evdata(2, n_per), params_recarray=pr)   # contract broken on purpose
+        fresh = Cls(make_func(0, c, []), pg)
+        (vf, _) = fresh(tdm=StubTDM(n_per, 1), eventdata=evdata(2, n_per), params_recarray=pr)
+        if not np.allclose(vb, vf, rtol=1e-12, atol=0):
+            ctx.violation(SITE_KEY, KIND_KEY, 'same trial data state id and grid cell, other eventdata: the values of '
+                          'the first eventdata are returned', case={'probe': 'eventdata', 'kind': Cls.__name__},
+                          impl=vb.tolist(), model=vf.tolist())
+        m = Cls(make_func(0, c, []), pg)
+        m(tdm=StubTDM(n_per, 1), eventdata=evdata(1, n_per), params_recarray=pr)
+        c2 = [-3.0, 1.0, 0.25, 0.25]
+        m.func = make_func(0, c2, [])
+        (vb, _) = m(tdm=StubTDM(n_per, 1), eventdata=evdata(1, n_per), params_recarray=pr)
+        (vf, _) = Cls(make_func(0, c2, []), pg)(tdm=StubTDM(n_per, 1), eventdata=evdata(1, n_per), params_recarray=pr)
+        if not np.allclose(vb, vf, rtol=1e-12, atol=0):
+            ctx.violation(SITE_KEY, KIND_KEY, 'after re-assigning the `func` property the object still answers with the '
+                          'parametrisation of the old function', case={'probe': 'func-setter', 'kind': Cls.__name__},
+                          impl=vb.tolist(), model=vf.tolist())
+    # (3) first / last cells through a real PDFSet on the extended grid
+    pgx = ParameterGrid('p', np.arange(1.0, 2.05, 0.1), delta=0.1)
+    orig = [float(x) for x in pgx.grid]
+    pgx.add_extra_lower_and_upper_bin()
+    ps = _stub_pdfset(pgx)
+    ext = [float(x) for x in pgx.grid]
+
+    def shape(v):                      # the manifold: a smooth function of the grid value
+        return 1.0 + 2.0 * v + 0.5 * v * v
+
+    def pdf_func(tdm, eventdata, gridparams_recarray, n_values):
+        gp = gridparams_recarray
+        if len(gp) == 1:
+            gp = np.tile(gp, tdm.n_sources)
+        (src, evt) = tdm.src_evt_idxs
+        out = np.empty((len(src),), dtype=np.float64)
+        for j, s_ in enumerate(src):
+            tag = ps.get_pdf({'p': gp['p'][s_]}).tag        # KeyError when the value is not a registered member
+            out[j] = shape(ext[tag]) * (1.0 + 0.25 * evt[j])
+        return out
+    xs_probe = [orig[0], orig[0] + 0.03, orig[0] + 0.05, orig[0] + 0.08, orig[1], orig[-2] + 0.02,
+                orig[-2] + 0.05, orig[-2] + 0.09, orig[-1]]
+    for Cls in (Lin, Par):
+        m = Cls(pdf_func, pgx)
+        for x in xs_probe:
+            ctx.count('probe:edge-cell')
+            try:
+                (v, g) = m(tdm=StubTDM([2], 1), eventdata=None, params_recarray=np.array([(x,)], dtype=[('p', np.float64)]))
+            except KeyError as ex:
+                ctx.violation(Cls.__name__ + '.__call__', 'edge-cell-requests-unregistered-grid-value',
+                              'interpolation inside the original range of an extended grid asked the PDFSet for a '
+                              'value that is not a registered grid member', case={'probe': 'edge', 'x': hx(x)}, impl=str(ex)[:200])
+                continue
+            # quadratic manifold: Parabola exact everywhere, Linear exact at grid points
+            if Cls is Par or bits(x) in {bits(t) for t in ext}:
+                want = [shape(x), shape(x) * 1.25]
+                if not np.allclose(v, want, rtol=1e-9, atol=0):
+                    ctx.violation(Cls.__name__ + '.__call__', 'value-not-exact',
+                                  'edge cell: interpolated value differs from the manifold', case={'probe': 'edge', 'x': hx(x)},
+                                  impl=v.tolist(), model=want)
+    # a PDFSet must not answer for a value that is not a registered member
+    for v in (orig[0] + 0.05, orig[2] + 1e-9, 7.0):
+        try:
+            t = ps.get_pdf({'p': v}).tag
+            ctx.violation('PDFSet.get_pdf', 'pdf-returned-for-unregistered-value',
+                          'get_pdf returned a PDF for a value that is not a registered grid value',
+                          case={'probe': 'non-member', 'x': hx(v)}, impl=t)
+        except KeyError:
+            ctx.count('probe:non-member-keyerror')
+
+
 # ------------------------------------------------------------------ corpus
 def corpus_regular():
     """the input of DESIGN §10 #18 (kept so that the check reports it while it exists) and the
@@ -1083,6 +1228,7 @@ def run(ctx):
     itp = [gen_interp(rng, k) for k in ('L', 'P') for _ in range(ctx.budget(40, 400))]
     run_interp(ctx, exe, itp)
     ctx.sample({'interp': {k: itp[0][k] for k in ('kind', 'fam', 'c', 'origin', 'delta', 'n', 'n_per')}})
+    run_contract_probes(ctx)
     multi = [gen_multi(rng) for _ in range(ctx.budget(30, 300))]
     run_multi(ctx, exe, multi)
     ctx.sample({'multi': {'objs': [(o['kind'], o['fam'], o['c']) for o in multi[0]['objs']], 'steps': multi[0]['steps'][:4]}})
@@ -1118,6 +1264,8 @@ def replay(ctx, rp):
         case = {'grid': c.get('irr') or c['grid'], 'kind': c.get('kind', 'replay'), 'ext': bool(c.get('ext')) and 'irr' not in c,
                 'seed': c.get('seed', 1)}
         return run_irregular(ctx, exe, [case])
+    if c.get('probe'):
+        return run_contract_probes(ctx)
     if c.get('multi'):
         case = {'multi': True, 'objs': c['objs'], 'n_per': c['n_per'],
                 'steps': [(j, i, [tuple(p) for p in pos]) for (j, i, pos) in c['steps']]}
